@@ -18,7 +18,7 @@
 From Coq Require Import QArith Qcanon List String Bool Permutation.
 Import ListNotations.
 From S2 Require Import Base.Num Base.Arr Model.Expr Model.Struct Model.Solvers
-     Model.Rates Model.Run Model.Program Proofs.NumQc Proofs.NumLemmas Proofs.InvarianceProofs Proofs.TimeShift Proofs.Scaling Proofs.ShiftBuild Proofs.BuildProofs Proofs.FlowOrder Proofs.AggregateAll Proofs.CompOrder Proofs.PopScale Proofs.StratCompsOrder Proofs.StratSwap Model.InitPop Gen.SolversGen Props.Examples.
+     Model.Rates Model.Run Model.Program Proofs.NumQc Proofs.NumLemmas Proofs.InvarianceProofs Proofs.TimeShift Proofs.Scaling Proofs.ShiftBuild Proofs.BuildProofs Proofs.FlowOrder Proofs.AggregateAll Proofs.CompOrder Proofs.PopScale Proofs.StratCompsOrder Proofs.StratSwap Proofs.StratSwapApi Model.InitPop Gen.SolversGen Props.Examples.
 
 Theorem C15_flow_permutation :
   forall (O : NumOps) (T : NumTheory O) (rate : flow -> F O) (fl fl' : list flow) (c : comp),
@@ -286,3 +286,34 @@ Theorem C15_strata_order_flow_copies :
                 /\ Permutation fl fl'.
 Proof. exact strata_order_permutes_flow_copies. Qed.
 Print Assumptions C15_strata_order_flow_copies.
+
+(* ... through the API: whenever two stratifications are accepted in both orders (stratify_with; their names differ
+   because a duplicated name is refused), the two models have equally many compartments, and every compartment of one is
+   a compartment of the other with the same name and the same stratum for every stratification - on every model *)
+Theorem C15_stratification_order_api :
+  forall m s1 s2 m1 m12 m2 m21,
+    stratify_with m s1 = Ok m1 -> stratify_with m1 s2 = Ok m12 ->
+    stratify_with m s2 = Ok m2 -> stratify_with m2 s1 = Ok m21 ->
+    List.length (m_comps m12) = List.length (m_comps m21)
+    /\ (forall x, In x (m_comps m12) -> exists y, In y (m_comps m21) /\ comp_same x y)
+    /\ (forall y, In y (m_comps m21) -> exists x, In x (m_comps m12) /\ comp_same y x).
+Proof. exact api_stratification_order. Qed.
+Print Assumptions C15_stratification_order_api.
+
+Example C15_stratification_order_api_nonvacuous :
+  let s1 := {| s_name := "risk"; s_kind := SPlain; s_strata := ["lo"; "hi"]; s_comps := ["S"; "I"]; s_split := []; s_fadj := []; s_iadj := []; s_mix := None |}%string in
+  let s2 := {| s_name := "loc"; s_kind := SPlain; s_strata := ["u"; "r"; "x"]; s_comps := ["I"; "R"]; s_split := []; s_fadj := []; s_iadj := []; s_mix := None |}%string in
+  match build_ok 0 2 1 ["S"; "I"; "R"]%string ["I"]%string
+                 [OpPop [("S", EConst 90); ("I", EConst 10)]%string;
+                  OpFlow (FlowSpec KInfFreq "inf" (EConst 1) "S" "I" [] [] None false);
+                  OpFlow (FlowSpec KTrans "rec" (EConst (1#2)) "I" "R" [] [] None false)]%string with
+  | Some m => match stratify_with m s1, stratify_with m s2 with
+              | Ok m1, Ok m2 => match stratify_with m1 s2, stratify_with m2 s1 with
+                                | Ok m12, Ok m21 => List.length (m_comps m12) = 11%nat /\ m_comps m12 <> m_comps m21
+                                | _, _ => False
+                                end
+              | _, _ => False
+              end
+  | None => False
+  end.
+Proof. vm_compute. split; [reflexivity | intro H; discriminate H]. Qed.
